@@ -185,6 +185,13 @@ theorem toInt_signed (b : Bits) (hb : b.WF) (hn : 0 < b.size) :
     have h2 : ((2 ^ b.size - 1 - b.ival : Nat) : Int) = ((2 ^ b.size : Nat) : Int) - 1 - (b.ival : Int) := by omega
     rw [h2]; omega
 
+/-- an empty vector has no sign bit: `int(-1)` is refused -/
+theorem toInt_signed_empty (b : Bits) (h0 : b.size = 0) : ∃ e, b.toInt (-1) = .error e := by
+  unfold toInt
+  simp only [↓reduceIte]
+  rw [bit_neg_one_empty b h0]
+  exact ⟨"IndexError", rfl⟩
+
 /-- `list(b)` / `bitlist()`: the bits in order; `bitlist(-1)` reversed -/
 theorem toBitList_spec (b : Bits) :
     b.toBitList.length = b.size ∧ ∀ i (h : i < b.toBitList.length), b.toBitList[i] = (b.ival.testBit i).toNat :=
